@@ -65,6 +65,21 @@ def run(res, f, tier):
     tok = g["terminal_token"]
     names = {i: n for n, i in tok.items()}
     disp = {}
+    # ---- the rendering of a sub-term reaches the output verbatim (decided before the templates are decoded: a printer
+    # that lays its output out by value-dependent rules may be beyond the template decoder, this rule is not)
+    import control
+    import rendered
+    rendered_ctl = control.rendered_controls()
+    roots = [f.impl_method("std::fmt::Display", adt, "fmt") for adt in (EXPR, VALUE, INDEX)]
+    if not all(roots):
+        raise Inconclusive("Display impl of %s not found" % [a for a, r in zip((EXPR, VALUE, INDEX), roots) if not r])
+    rewritten, rstats = rendered.analyse(f, roots, (EXPR, VALUE, INDEX))
+    res.floor("sites where a printer renders a sub-term (taint seeds)", rstats["seed_sites"], 1)
+    for d_, name_, span_, full_ in rewritten:
+        res.violation("C16|rendered-text-rewritten|%s|%s" % (name_, short_callee(d_)),
+                      "%s (%s) passes the rendering of a sub-term through `%s` before writing it: a string literal inside that rendering whose content the rewrite touches "
+                      "is printed with different content, and the text parses back to a different expression" % (d_, span_, full_),
+                      {"function": d_, "span": span_, "callee": full_})
     for adt in (EXPR, VALUE, INDEX):
         imp = f.impl_method("std::fmt::Display", adt, "fmt")
         if not imp:
@@ -493,6 +508,8 @@ def run(res, f, tier):
                        "compositions parsed back with the extracted grammar (Earley over sentential forms) and compared with the tree printed; leaf languages and string escaping "
                        "checked by automata against the token table; %d (last token, next character) boundary pairs checked on the lexer DFA" % (triples, len(seen_kc)),
         "obligations": obligations, "discharged": discharged, "triples": triples, "three_level_compositions": depth3, "failing_triples": len(failing), "boundary_pairs": len(seen_kc),
+        "rendered_text_flow": dict(rstats, rule="no rendering of a sub-term is the receiver of a content-rewriting str/String method (%s) in the %d bodies reachable from the Display impls"
+                                   % (", ".join(rendered.REWRITERS), rstats["bodies"]), rewritten=len(rewritten), controls=rendered_ctl),
         "rule": "parse(print(tree)) == tree for all depth-2 compositions; printed leaf language inside its token; no token-boundary extension",
         "samples": samples + [{"parent": a, "hole": b, "child": c, "tokens": d, "reparsed": e, "expected": g_} for a, b, c, d, e, g_ in failing[:6]],
         "exhaustive": True,
